@@ -5,6 +5,21 @@ use std::collections::{BTreeSet, HashMap};
 use std::num::NonZeroUsize;
 use vm_memory::bitmap::{AtomicBitmap, Bitmap, RefSlice};
 
+/// a bitmap for `size` bytes: built directly, or — for every third size — grown from an empty one in two steps
+/// (`new(0)`, `enlarge`, `enlarge`), which must give the same bitmap (C05: tracking must not depend on how the
+/// bitmap got its size)
+pub fn new_bitmap(size: usize, page: usize) -> AtomicBitmap {
+    let pg = NonZeroUsize::new(page).unwrap();
+    if size % 3 == 1 {
+        let mut b = AtomicBitmap::new(0, pg);
+        b.enlarge(size / 2);
+        b.enlarge(size - size / 2);
+        b
+    } else {
+        AtomicBitmap::new(size, pg)
+    }
+}
+
 pub struct BmWorld {
     pub bms: HashMap<u64, AtomicBitmap>,
     /// oracle: the set of dirty page numbers and the page count / page size
